@@ -1,6 +1,7 @@
 #!/bin/bash
 # run every claimed check (quick by default) in parallel; print one status line per check
 cd /verif; tier=${1:-quick}
+if [ "$tier" = selfcheck ]; then exec python3-vt tools/validate_translator.py; fi
 ids=$(python3 -c "import json; print(' '.join(c['property_id'] for c in json.load(open('MANIFEST.json'))['checks']))")
 mkdir -p out/logs
 for id in $ids; do ( s=$(date +%s); ./run $id $tier > out/logs/$id.$tier.log 2>&1; rc=$?; echo "$id exit=$rc $(( $(date +%s) - s ))s $(grep -c '^VIOLATION' out/logs/$id.$tier.log) violations; $(tail -1 out/logs/$id.$tier.log | cut -c1-150)" ) & done; wait
